@@ -503,6 +503,12 @@ pub fn outcome_class<T>(r: &Result<T, String>) -> String {
 
 /// All registered types in generator order: built-in type terms (six generated crates, so that
 /// their monomorphisation compiles in parallel) plus the derived corpus.
+#[cfg(not(feature = "full"))]
+pub fn registry() -> Vec<VT> {
+	subjects::registry::derived()
+}
+
+#[cfg(feature = "full")]
 pub fn registry() -> Vec<VT> {
 	let mut v: Vec<(usize, VT)> = vec![];
 	v.extend(reg0::types());
